@@ -233,6 +233,20 @@ def generate(rng, tier):
             m = L.rand_other(rng)
         else:
             m = L.rand_sm(rng, rng.choice(('SubmitSm', 'SubmitSm', 'DeliverSm')))
+        if i % 5 == 1 and type(m).__name__ == 'SubmitSm' and m.short_message and not m.message_payload and m.encoding is None \
+                and m.error_handling == 'strict':
+            # the way the Sender serialises an unsplit message when auto_message_payload is off: smpp_encode() first (which
+            # chooses the alphabet), the octets handed back through set_encoded_message(), then pdu()
+            try:
+                m.set_encoding_info(default, None)
+                _enc0 = m.encoding
+                _pre = m.smpp_encode(m.short_message)
+                if len(_pre) <= 254:            # longer texts are split by the Sender, never handed over whole
+                    m.set_encoded_message(_pre)
+                else:
+                    m.encoding = _enc0
+            except Exception:      # noqa
+                pass
         c, pdu = enc_case(rng, m, default, True)
         yield c
         if pdu is not None and i % 2 == 0:
